@@ -172,6 +172,17 @@ func (f *failModel) Distance(s1, s2 []uint8, w []float64) (float64, error) {
 		if atomic.AddInt64(&f.calls, 1)-1 == f.k {
 			return 0, fmt.Errorf("injected failure at call %d", f.k)
 		}
+	case "pairfrom":
+		// every pair from the k-th on (producer's order of the half matrix) fails: several evaluations fail,
+		// possibly in several workers at once
+		if len(s1) > 0 && len(s2) > 0 {
+			i, ok1 := f.ptr[&s1[0]]
+			j, ok2 := f.ptr[&s2[0]]
+			if ok1 && ok2 && i < j && int64(i*f.n-i*(i+1)/2+(j-i-1)) >= f.k {
+				atomic.AddInt64(&f.pairSeen, 1)
+				return 0, fmt.Errorf("injected failure from pair %d on (%d,%d)", f.k, i, j)
+			}
+		}
 	default:
 		if len(s1) > 0 && len(s2) > 0 {
 			i, ok1 := f.ptr[&s1[0]]
@@ -311,7 +322,7 @@ func init() {
 		return strings.Join(out, ";")
 	})
 
-	// distfail <rows> <cpus> <k> <mode pair|call> <watch_ms>  -> returned-error | returned-nil | hang
+	// distfail <rows> <cpus> <k> <mode pair|call|pairfrom> <watch_ms>  -> returned-error | returned-nil | hang
 	register("distfail", func(a []string) string {
 		rows := decRows(a[0])
 		cpus := atoi(a[1])
